@@ -37,7 +37,7 @@ def _case(draw, max_t):
     shape = draw(st.sampled_from([[1, 2], [2, 1], [2, 2], [2, 3], [3, 2], [2, 4], [3, 3], [2, 5], [1, 7]]))
   n = int(np.prod(shape))
   sketch = 0 if alg in ("OGD", "ADA") else draw(st.integers(2, n))
-  deltas = [1e-6, 1e-3, 0.1, 1.0, 0.5]
+  deltas = [1e-10, 1e-8, 1e-6, 1e-3, 0.1, 1.0, 0.5]
   if alg != "ADA_FD":
     deltas = deltas + [0.0]
   delta = draw(st.sampled_from(deltas))
@@ -47,21 +47,99 @@ def _case(draw, max_t):
   t = draw(st.integers(1, max_t))
   kinds = ["dense", "dense", "zero", "repeat", "scaled"]
   steps = draw(st.lists(st.fixed_dictionaries({
-      "kind": st.sampled_from(kinds), "exp": st.integers(-3, 3),
+      "kind": st.sampled_from(kinds), "exp": st.sampled_from([-6, -5, -4, -3, -2, -1, 0, 1, 2, 3]),
       "seed": st.integers(0, 2**16)}), min_size=t, max_size=t))
-  return {"alg": alg, "shape": shape, "sketch": sketch, "delta": delta, "lr": lr,
+  return {"gscale_exp": draw(st.sampled_from([0, 0, 0, -3, -5, -6, 2])),
+          "alg": alg, "shape": shape, "sketch": sketch, "delta": delta, "lr": lr,
           "sub_dim": sub_dim, "sub_seed": draw(st.integers(0, 2**16)),
           "jit": draw(st.booleans()), "steps": steps}
 
 
+@st.composite
+def _train_case(draw):
+  alg = draw(st.sampled_from(["OGD", "ADA", "S_ADA", "S_ADA"]))
+  n = draw(st.integers(2, 6))
+  sketch = 0 if alg != "S_ADA" else draw(st.integers(2, n))
+  rows = draw(st.integers(3, 24))
+  return {"driver": "train", "alg": alg, "n": n, "sketch": sketch, "rows": rows,
+          "num_obs": draw(st.integers(2, min(7, rows + 1))),
+          "delta": draw(st.sampled_from([1e-6, 1e-3, 0.5, 1.0])), "lr": draw(st.sampled_from([1.0, 0.25])),
+          "sub_dim": draw(st.integers(1, max(1, sketch - 1))) if alg == "S_ADA" else 0,
+          "seed": draw(st.integers(0, 2**16))}
+
+
 def shards(tier):
   if tier == "quick":
-    return [{"name": "seq", "examples": 16 * 420, "workers": 16, "max_t": 15}]
-  return [{"name": "seq", "examples": 16 * 5000, "workers": 16, "max_t": 25}]
+    return [{"name": "seq", "examples": 13 * 420, "workers": 13, "max_t": 15},
+            {"name": "train", "examples": 3 * 60, "workers": 3}]
+  return [{"name": "seq", "examples": 13 * 6000, "workers": 13, "max_t": 25},
+          {"name": "train", "examples": 3 * 1200, "workers": 3}]
 
 
 def strategy(shard):
+  if shard["name"] == "train":
+    return _train_case()
   return _case(shard["max_t"])
+
+
+def check_train(case):
+  """Drives precondition.oco.train.run_dataset on a synthetic dataset whose loss is linear in w."""
+  import jax
+  import jax.numpy as jnp
+  from precondition.oco import algorithms as alg
+  from precondition.oco import datasets, train
+  n, rows = case["n"], case["rows"]
+  rng = np.random.default_rng(case["seed"])
+  if case["sub_dim"]:
+    x = rng.standard_normal((rows, case["sub_dim"])) @ rng.standard_normal((case["sub_dim"], n))
+  else:
+    x = rng.standard_normal((rows, n))
+  y = rng.integers(0, 2, rows).astype(np.float64)
+
+  def linear_loss(w, xr, yr):
+    return (2.0 * yr - 1.0) * jnp.dot(w, xr, precision=jax.lax.Precision.HIGHEST)
+
+  ds_obj = datasets.SimpleDataset(x, y, linear_loss, (n,))
+  hp = alg.HParams(delta=case["delta"], lr=case["lr"], sketch_size=case["sketch"],
+                   algorithm=alg.Algorithm[case["alg"]])
+  saved = train.datasets.load_dataset
+  train.datasets.load_dataset = lambda name, cache=None: ds_obj
+  try:
+    hist = train.run_dataset("synthetic", case["num_obs"], hp)
+  finally:
+    train.datasets.load_dataset = saved
+  obs = np.round(np.linspace(0, rows, num=case["num_obs"], endpoint=True)).astype(int)
+  W = np.asarray(hist["w"], np.float64)
+  N = np.asarray(hist["n"])
+  L = np.asarray(hist["loss"], np.float64)
+  require(W.shape == (len(obs), n), "train-history-shape", f"{W.shape} vs {(len(obs), n)}")
+  grads = (2.0 * y - 1.0)[:, None] * x
+  delta, lr = case["delta"], case["lr"]
+  iterates = [np.zeros(n)]
+  w = np.zeros(n)
+  diag_h = np.full(n, delta)
+  cov = delta * np.eye(n)
+  for t, g in enumerate(grads, start=1):
+    if case["alg"] == "OGD":
+      w = w - lr * g / np.sqrt(t + delta)
+    elif case["alg"] == "ADA":
+      diag_h = diag_h + g * g
+      w = w - lr * g / np.sqrt(np.where(diag_h == 0, 1.0, diag_h))
+    else:
+      cov = cov + np.outer(g, g)
+      w = w - lr * _psd_power(cov, -0.5) @ g
+    iterates.append(w.copy())
+  losses = np.concatenate([[0.0], np.cumsum([float(np.dot(iterates[t], grads[t])) for t in range(rows)])])
+  for j, k in enumerate(obs):
+    require(int(N[j]) == int(k), "train-row-counter", f"observation {j}: n = {int(N[j])}, expected {int(k)}")
+    tol = 1e-6 * max(float(np.max(np.abs(iterates[k]))), 1e-12)
+    require(bool(np.all(np.abs(W[j] - iterates[k]) <= tol)), f"train-{case['alg'].lower()}-iterates",
+            f"after {int(k)} rows (observation {j} of {len(obs)}): |w - closed form| = "
+            f"{np.max(np.abs(W[j] - iterates[k])):.3g}")
+    ltol = 1e-6 * max(float(np.max(np.abs(losses))), 1e-12)
+    require(abs(L[j] - losses[k]) <= ltol, "train-cumulative-loss",
+            f"after {int(k)} rows: loss {L[j]:.9g} vs {losses[k]:.9g}")
+  return Result(len(obs) >= 3 and rows >= 3, [f"train-{case['alg']}", f"chunks={min(len(obs) - 1, 4)}"], sub=rows)
 
 
 def history(case):
@@ -85,7 +163,7 @@ def history(case):
     elif k == "scaled":
       g = g * 10.0 ** spec["exp"]
     prev = g
-    out.append(g)
+    out.append(g * 10.0 ** case.get("gscale_exp", 0))
   return out
 
 
@@ -120,6 +198,8 @@ def _psd_power(m, p):
 
 
 def check(case):
+  if case.get("driver") == "train":
+    return check_train(case)
   import jax.numpy as jnp
   init, step, jstep = _fns(case)
   fn = jstep if case["jit"] else step
